@@ -164,6 +164,23 @@ fn mutants(prog: &Value) -> Vec<(String, Value)> {
         match n["k"].as_str().unwrap_or("") {
             "match" => {
                 let arms = n["arms"].as_array().cloned().unwrap_or_default();
+                // the clauses of a match must agree in type: one clause gets a value of another type / a block that ends with a statement
+                for j in 0..arms.len() {
+                    if arms.len() < 2 || arms[j]["b"]["k"] != "block" { continue; }
+                    let z = json!([0, 0, 0, 0]);
+                    let t = &arms[j]["b"]["ty"];
+                    let other = if t["k"] == "bool" { json!({"k":"num","v":1,"ty":int_ty("u8"),"m":z}) } else { json!({"k":"true","ty":{"k":"bool"},"m":z}) };
+                    let mut x = n.clone();
+                    x["arms"][j]["b"]["ss"] = json!([{"k":"expr","e":other,"m":z}]);
+                    emit("clause-types", path, x, &mut out);
+                    let unit = t["k"] == "tup" && t["fs"].as_array().map(|a| a.is_empty()).unwrap_or(false);
+                    if !unit {
+                        let mut x = n.clone();
+                        let inner = json!({"k":"block","ss":[{"k":"let","p":{"k":"pid","n":"zz_u","ty":{"k":"bool"},"m":z},"e":{"k":"true","ty":{"k":"bool"},"m":z},"m":z}],"ty":{"k":"tup","fs":[]},"m":z});
+                        x["arms"][j]["b"]["ss"] = json!([{"k":"expr","e":inner,"m":z}]);
+                        emit("clause-types", path, x, &mut out);
+                    }
+                }
                 for i in 0..arms.len() {
                     let mut names: Vec<(String, Value)> = vec![];
                     bound_names(&arms[i]["p"], &mut names);
